@@ -7,6 +7,7 @@ use num_rational::BigRational as NumRat;
 use num_traits::{sign::Signed, One, ToPrimitive, Zero};
 use serde_derive::{Deserialize, Serialize};
 use std::cmp::Ord;
+use std::convert::TryFrom;
 use std::fmt;
 use std::ops::{Add, Div, Mul, Neg, Rem, Sub};
 
@@ -122,10 +123,10 @@ impl BigRat {
         loop {
             let exact = cursor == zero;
             let placed_ints = n >= intdigits;
-            let ndigits = match digits {
+            let ndigits: i64 = match digits {
                 Digits::Default | Digits::Scientific | Digits::Engineering => 6,
                 Digits::FullInt | Digits::Fraction => 1000,
-                Digits::Digits(n) => intdigits as i32 + n as i32,
+                Digits::Digits(n) => (intdigits as i64).saturating_add(i64::try_from(n).unwrap_or(i64::MAX)),
             };
             // Conditions for exiting:
             // 1. The number is already exact and all the integer
@@ -133,8 +134,8 @@ impl BigRat {
             // 2. The number is not exact, but all the integer positions
             //    have been placed, and no more digits should be added
             //    as the number is getting too long.
-            let after_radix = n as i32 - zeros as i32;
-            let max_radix = std::cmp::max(intdigits as i32, ndigits);
+            let after_radix = n as i64 - zeros as i64;
+            let max_radix = std::cmp::max(intdigits as i64, ndigits);
             let bail = (exact && placed_ints) || after_radix > max_radix;
 
             // Before bailing, first check if adding a few
